@@ -74,6 +74,8 @@ const KNOWN_RULES: &[&str] = &[
     "res_map_err",
     "pub_fields",
     "into_method",
+    "parse_typed_let",
+    "join_fn",
 ];
 
 pub fn apply(repo: &str, req: &ItemReq, f: &mut FnUnderEdit) -> Result<(), String> {
@@ -204,6 +206,20 @@ pub fn apply(repo: &str, req: &ItemReq, f: &mut FnUnderEdit) -> Result<(), Strin
         v.visit_block_mut(&mut f.block);
         let n = v.n;
         f.fire("for_iter", n);
+    }
+    // R36b `let x: T = E.parse()[.map_err(c)][?];` -> the turbofish `::<T>` is written out (what inference does), then R36 applies
+    if has("parse_typed_let") {
+        let mut v = ParseTypedLet { n: 0 };
+        v.visit_block_mut(&mut f.block);
+        let n = v.n;
+        f.fire("parse_typed_let", n);
+    }
+    // R41 `X.join(SEP)` -> `vx_join(&X, SEP)`
+    if has("join_fn") {
+        let mut v = JoinFn { n: 0 };
+        v.visit_block_mut(&mut f.block);
+        let n = v.n;
+        f.fire("join_fn", n);
     }
     // R36 `E.parse::<T>()` -> `vx_parse_T(E)`
     if has("parse_turbofish") {
@@ -1110,7 +1126,7 @@ impl VisitMut for IterSearch {
         visit_mut::visit_expr_mut(self, e);
         if let syn::Expr::MethodCall(m) = e {
             let name = m.method.to_string();
-            if !(name == "any" || name == "all" || name == "max_by_key") || m.args.len() != 1 {
+            if !(name == "any" || name == "all" || name == "max_by_key" || name == "position") || m.args.len() != 1 {
                 return;
             }
             let c = match &m.args[0] {
@@ -1129,6 +1145,11 @@ impl VisitMut for IterSearch {
                 "any" => (
                     syn::parse_quote!(false),
                     syn::parse_quote!({ if { let #pat = __vx_x; #body } { __vx_res = true; break; } }),
+                    syn::parse_quote!(__vx_res),
+                ),
+                "position" => (
+                    syn::parse_quote!(None),
+                    syn::parse_quote!({ if { let #pat = __vx_x; #body } { __vx_res = Some(__vx_i); break; } __vx_i += 1; }),
                     syn::parse_quote!(__vx_res),
                 ),
                 "all" => (
@@ -1172,11 +1193,14 @@ impl VisitMut for IterSearch {
             let decl: syn::Stmt = match (asc, name.as_str()) {
                 (Some(t), _) => syn::parse_quote!(let mut __vx_res: #t = #init;),
                 (None, "max_by_key") => syn::parse_quote!(let mut __vx_res = #init;),
+                (None, "position") => syn::parse_quote!(let mut __vx_res: Option<usize> = #init;),
                 _ => syn::parse_quote!(let mut __vx_res: bool = #init;),
             };
+            let counter: Option<syn::Stmt> = if name == "position" { Some(syn::parse_quote!(let mut __vx_i: usize = 0;)) } else { None };
             *e = syn::parse_quote!({
                 let mut __vx_it = #start;
                 #decl
+                #counter
                 loop {
                     match __vx_it.next() {
                         Some(__vx_x) => #inner,
@@ -1231,12 +1255,67 @@ impl VisitMut for ParseTurbofish {
                             if let Some(id) = tp.path.get_ident() {
                                 let f = syn::Ident::new(&format!("vx_parse_{id}"), proc_macro2::Span::call_site());
                                 let recv = &m.receiver;
-                                *e = syn::parse_quote!(#f(#recv));
+                                // method syntax keeps the auto-(de)referencing of the original `.parse()` call
+                                *e = syn::parse_quote!((#recv).#f());
                                 self.n += 1;
                             }
                         }
                     }
                 }
+            }
+        }
+    }
+}
+
+// ---------------------------------------------------------------- R36b
+struct ParseTypedLet {
+    n: usize,
+}
+fn root_parse(e: &mut syn::Expr) -> Option<&mut syn::ExprMethodCall> {
+    match e {
+        syn::Expr::Try(t) => root_parse(&mut t.expr),
+        syn::Expr::Paren(t) => root_parse(&mut t.expr),
+        syn::Expr::MethodCall(m) => {
+            if m.method == "parse" && m.args.is_empty() {
+                Some(m)
+            } else if m.method == "map_err" && m.args.len() == 1 {
+                root_parse(&mut m.receiver)
+            } else {
+                None
+            }
+        }
+        _ => None,
+    }
+}
+impl VisitMut for ParseTypedLet {
+    fn visit_local_mut(&mut self, l: &mut syn::Local) {
+        visit_mut::visit_local_mut(self, l);
+        if let syn::Pat::Type(pt) = &l.pat {
+            let ty = (*pt.ty).clone();
+            if let Some(init) = &mut l.init {
+                if let Some(m) = root_parse(&mut init.expr) {
+                    if m.turbofish.is_none() {
+                        m.turbofish = Some(syn::parse_quote!(::<#ty>));
+                        self.n += 1;
+                    }
+                }
+            }
+        }
+    }
+}
+
+// ---------------------------------------------------------------- R41
+struct JoinFn {
+    n: usize,
+}
+impl VisitMut for JoinFn {
+    fn visit_expr_mut(&mut self, e: &mut syn::Expr) {
+        visit_mut::visit_expr_mut(self, e);
+        if let syn::Expr::MethodCall(m) = e {
+            if m.method == "join" && m.args.len() == 1 && m.turbofish.is_none() {
+                let (recv, arg) = (&m.receiver, &m.args[0]);
+                *e = syn::parse_quote!(vx_join(&#recv, #arg));
+                self.n += 1;
             }
         }
     }
